@@ -33,7 +33,7 @@ ASSUMPTIONS = [
     "for real optimizers the course of the run is not predicted: the expected code is derived from the recorded history "
     "(some evaluation too few => TOO_FEW_REALIZATIONS and it is the last one; otherwise budget / finished rules)",
 ]
-BOUNDS = {"quick": "deviation bound 1, all row subsets for calls with <=6 rows", "thorough": "deviation bound 2 for scripted/evaluator drivers"}
+BOUNDS = {"quick": "deviation bound 1, all row subsets for calls with <=6 rows", "thorough": "bound 1 with all three NaN-column rotations; bound 2 for the scripted/evaluator drivers on the untransformed configurations"}
 
 R, P, V = 2, 2, 1
 FILTERS = ["none", "sort-objective", "sort-constraint", "cvar-objective", "cvar-constraint"]
@@ -429,8 +429,11 @@ def variants(shard: dict[str, Any]) -> list[dict[str, Any]]:
 
 def run_shard(shard: dict[str, Any]) -> core.ShardResult:
     rec = Recorder(shard)
-    bound = 2 if shard["tier"] == "thorough" and shard["driver"] in ("scripted", "evaluator") else 1
+    # thorough: two deviations for the scripted / evaluator drivers on the untransformed configurations
+    bound = 2 if (shard["tier"] == "thorough" and shard["driver"] in ("scripted", "evaluator") and shard["transforms"] == "none") else 1
     for case in variants(shard):
+        if bound == 2 and (case.get("nan_shift") or case.get("max_functions") in (1, 3)):
+            continue  # the two-deviation runs use one NaN-column rotation and budgets {none, 2}; bound 1 covers the rest
         baseline_functions = None
         for choices, chooser, run in explore(lambda ch, c=case: execute(c, ch), bound):
             full = dict(case)
